@@ -1,5 +1,13 @@
 package main
 
+import (
+	"go/ast"
+	"go/token"
+	"go/types"
+	"strconv"
+	"strings"
+)
+
 func init() {
 	register(func() {
 		evm := load("llo/reportcodecs/evm", false)
@@ -7,5 +15,256 @@ func init() {
 		addStrs("evm_EncodePackedBigInt_cmps", evm.comparisons(evm.funcDecl("", "EncodePackedBigInt"), "typePrefix"), "llo/reportcodecs/evm/report_codec_common.go EncodePackedBigInt", "C13")
 		addStrs("evm_EncodePaddedBigInt_cmps", evm.comparisons(evm.funcDecl("", "EncodePaddedBigInt")), "llo/reportcodecs/evm/report_codec_common.go EncodePaddedBigInt", "C13")
 		addStrs("evm_ExtractTimestamps_cmps", evm.comparisons(evm.funcDecl("", "ExtractTimestamps")), "llo/reportcodecs/evm/report_codec_common.go ExtractTimestamps", "C12")
+
+		// ---- C12: the EVM report codecs
+		common := "llo/reportcodecs/evm/report_codec_common.go "
+		addStrs("evm_ExtractTimestamps_arith", evm.binaryExprs(evm.funcDecl("", "ExtractTimestamps"), token.QUO), common+"ExtractTimestamps", "C12")
+		addStrs("evm_applyMultiplier_calls", evm.calls(evm.funcDecl("singleABIEncoder", "applyMultiplier")), common+"applyMultiplier", "C12")
+		addStrs("evm_getNormalizedMultiplier_calls", evm.calls(evm.funcDecl("singleABIEncoder", "getNormalizedMultiplier")), common+"getNormalizedMultiplier", "C12")
+		addStrs("evm_encodePacked_conds", evm.ifConds(evm.funcDecl("singleABIEncoder", "encodePacked")), common+"singleABIEncoder.encodePacked", "C12")
+		addStrs("evm_encodeUint64Packed_conds", evm.ifConds(evm.funcDecl("singleABIEncoder", "encodeUint64Packed")), common+"singleABIEncoder.encodeUint64Packed", "C12")
+		addStrs("evm_ABIEncoder_EncodePacked_conds", evm.ifConds(evm.funcDecl("ABIEncoder", "EncodePacked")), common+"ABIEncoder.EncodePacked", "C12")
+		addStrs("evm_ABIEncoder_EncodePadded_conds", evm.ifConds(evm.funcDecl("ABIEncoder", "EncodePadded")), common+"ABIEncoder.EncodePadded", "C12")
+		addStr("evm_ZeroBytesSentinel", evm.constLit("ZeroBytesSentinel"), common, "C12")
+
+		fees := "llo/reportcodecs/evm/fees.go "
+		addStrs("evm_CalculateFee_conds", evm.ifConds(evm.funcDecl("", "CalculateFee")), fees+"CalculateFee", "C12")
+		addStrs("evm_CalculateFee_calls", evm.calls(evm.funcDecl("", "CalculateFee")), fees+"CalculateFee", "C12")
+		addStr("evm_Precision", evm.constLit("Precision"), fees, "C12")
+		addStr("evm_FeeScalingFactor", evm.varInit("FeeScalingFactor"), fees, "C12")
+
+		prem := "llo/reportcodecs/evm/report_codec_premium_legacy.go "
+		addStrs("evm_premium_Encode_conds", evm.ifConds(evm.funcDecl("ReportCodecPremiumLegacy", "Encode")), prem+"Encode", "C12")
+		addStrs("evm_premium_Encode_fields", evm.compositeFields(evm.funcDecl("ReportCodecPremiumLegacy", "Encode"), "ReportFields"), prem+"Encode", "C12")
+		addStrs("evm_premium_Verify_conds", evm.ifConds(evm.funcDecl("ReportCodecPremiumLegacy", "Verify")), prem+"Verify", "C12")
+		addStrs("evm_premium_OptsDecode_conds", evm.ifConds(evm.funcDecl("ReportFormatEVMPremiumLegacyOpts", "Decode")), prem+"ReportFormatEVMPremiumLegacyOpts.Decode", "C12")
+		addStrs("evm_ExtractReportValues_conds", evm.ifConds(evm.funcDecl("", "ExtractReportValues")), prem+"ExtractReportValues", "C12")
+		addStrs("evm_extractPrice_cases", evm.typeSwitchCases(evm.funcDecl("", "extractPrice")), prem+"extractPrice", "C12")
+
+		unp := "llo/reportcodecs/evm/report_codec_evm_abi_encode_unpacked.go "
+		addStrs("evm_unpacked_Encode_conds", evm.ifConds(evm.funcDecl("ReportCodecEVMABIEncodeUnpacked", "Encode")), unp+"Encode", "C12")
+		addStrs("evm_unpacked_Encode_fields", evm.compositeFields(evm.funcDecl("ReportCodecEVMABIEncodeUnpacked", "Encode"), "BaseReportFields"), unp+"Encode", "C12")
+		addStrs("evm_unpacked_Verify_conds", evm.ifConds(evm.funcDecl("ReportCodecEVMABIEncodeUnpacked", "Verify")), unp+"Verify", "C12")
+		addStrs("evm_buildHeader_conds", evm.ifConds(evm.funcDecl("ReportCodecEVMABIEncodeUnpacked", "buildHeader")), unp+"buildHeader", "C12")
+		addStrs("evm_buildHeader_pack", evm.callArgs(evm.funcDecl("ReportCodecEVMABIEncodeUnpacked", "buildHeader"), ".Pack"), unp+"buildHeader", "C12")
+		addStrs("evm_buildPayload_conds", evm.ifConds(evm.funcDecl("", "buildPayload")), unp+"buildPayload", "C12")
+		addStrs("evm_unpacked_BaseSchema", evm.stringLits(evm.funcDecl("", "getBaseSchema")), unp+"getBaseSchema", "C12")
+		addStr("evm_unpacked_maxUint192", evm.varInit("maxUint192"), unp, "C12")
+
+		str := "llo/reportcodecs/evm/report_codec_evm_streamlined.go "
+		addStrs("evm_streamlined_Encode_conds", evm.ifConds(evm.funcDecl("ReportCodecEVMStreamlined", "Encode")), str+"Encode", "C12")
+		addStrs("evm_streamlined_Encode_calls", evm.callsMatching(evm.funcDecl("ReportCodecEVMStreamlined", "Encode"), "encodePacked", "EncodePacked", ".Bytes()"), str+"Encode", "C12")
+		addStrs("evm_streamlined_Verify_conds", evm.ifConds(evm.funcDecl("ReportCodecEVMStreamlined", "Verify")), str+"Verify", "C12")
+
+		v3 := load("llo/reportcodecs/evm/v3", false)
+		v3w := "llo/reportcodecs/evm/v3/report_codec.go "
+		addStrs("evm_v3_BuildReport_conds", v3.ifConds(v3.funcDecl("ReportCodec", "BuildReport")), v3w+"BuildReport", "C12")
+		addStrs("evm_v3_BuildReport_checks", v3.callsMatching(v3.funcDecl("ReportCodec", "BuildReport"), "checkInt192"), v3w+"BuildReport", "C12")
+		addStrs("evm_v3_BuildReport_pack", v3.callArgs(v3.funcDecl("ReportCodec", "BuildReport"), ".Pack"), v3w+"BuildReport", "C12")
+		addStrs("evm_v3_checkInt192_conds", v3.ifConds(v3.funcDecl("", "checkInt192")), v3w+"checkInt192", "C12")
+		addStrs("evm_v3_bounds", []string{v3.varInit("maxUint192"), v3.varInit("maxInt192"), v3.varInit("minInt192")}, v3w+"maxUint192, maxInt192, minInt192", "C12")
+		addStrs("evm_v3_Schema", v3.stringLits(v3.funcDecl("", "getSchema")), "llo/reportcodecs/evm/v3/types.go getSchema", "C12")
 	})
 }
+
+// ---- AST helpers used only by the EVM facts
+
+// ifConds lists the conditions of all if statements of a function in source order, without the
+// ubiquitous `err != nil` / `merr != nil` / `marshalErr != nil`.
+func (p *pkg) ifConds(fd *ast.FuncDecl) []string {
+	if fd == nil {
+		return []string{"<function not found>"}
+	}
+	var out []string
+	ast.Inspect(fd, func(n ast.Node) bool {
+		is, ok := n.(*ast.IfStmt)
+		if !ok {
+			return true
+		}
+		s := types.ExprString(is.Cond)
+		if is.Init != nil {
+			if as, ok := is.Init.(*ast.AssignStmt); ok && len(as.Rhs) == 1 {
+				s = types.ExprString(as.Rhs[0]) + "; " + s
+			}
+		}
+		if s == "err != nil" || s == "merr != nil" || s == "marshalErr != nil" {
+			return true
+		}
+		out = append(out, s)
+		return true
+	})
+	return out
+}
+
+// binaryExprs lists binary expressions with the given operator.
+func (p *pkg) binaryExprs(fd *ast.FuncDecl, op token.Token) []string {
+	if fd == nil {
+		return []string{"<function not found>"}
+	}
+	var out []string
+	ast.Inspect(fd, func(n ast.Node) bool {
+		if be, ok := n.(*ast.BinaryExpr); ok && be.Op == op {
+			out = append(out, types.ExprString(be))
+		}
+		return true
+	})
+	return out
+}
+
+// calls lists every outermost call expression of a function body (nested calls are part of the text).
+func (p *pkg) calls(fd *ast.FuncDecl) []string {
+	if fd == nil {
+		return []string{"<function not found>"}
+	}
+	var out []string
+	ast.Inspect(fd.Body, func(n ast.Node) bool {
+		if ce, ok := n.(*ast.CallExpr); ok {
+			out = append(out, types.ExprString(ce))
+			return false
+		}
+		return true
+	})
+	return out
+}
+
+// callsMatching lists call expressions whose text contains one of the substrings (outermost match).
+func (p *pkg) callsMatching(fd *ast.FuncDecl, subs ...string) []string {
+	if fd == nil {
+		return []string{"<function not found>"}
+	}
+	var out []string
+	ast.Inspect(fd.Body, func(n ast.Node) bool {
+		if ce, ok := n.(*ast.CallExpr); ok {
+			f := types.ExprString(ce.Fun)
+			for _, s := range subs {
+				if strings.Contains(f+"()", s) {
+					out = append(out, types.ExprString(ce))
+					return false
+				}
+			}
+		}
+		return true
+	})
+	return out
+}
+
+// callArgs lists the arguments of the first call whose function text ends with suffix.
+func (p *pkg) callArgs(fd *ast.FuncDecl, suffix string) []string {
+	if fd == nil {
+		return []string{"<function not found>"}
+	}
+	var out []string
+	found := false
+	ast.Inspect(fd.Body, func(n ast.Node) bool {
+		if ce, ok := n.(*ast.CallExpr); ok && !found && strings.HasSuffix(types.ExprString(ce.Fun), suffix) {
+			found = true
+			out = append(out, types.ExprString(ce.Fun))
+			for _, a := range ce.Args {
+				out = append(out, types.ExprString(a))
+			}
+			return false
+		}
+		return true
+	})
+	if !found {
+		return []string{"<call not found>"}
+	}
+	return out
+}
+
+// compositeFields lists "Key: Value" of the first composite literal whose type text ends with typeSuffix.
+func (p *pkg) compositeFields(fd *ast.FuncDecl, typeSuffix string) []string {
+	if fd == nil {
+		return []string{"<function not found>"}
+	}
+	var out []string
+	found := false
+	ast.Inspect(fd.Body, func(n ast.Node) bool {
+		cl, ok := n.(*ast.CompositeLit)
+		if !ok || found || cl.Type == nil || !strings.HasSuffix(types.ExprString(cl.Type), typeSuffix) {
+			return true
+		}
+		found = true
+		for _, e := range cl.Elts {
+			if kv, ok := e.(*ast.KeyValueExpr); ok {
+				out = append(out, types.ExprString(kv.Key)+": "+types.ExprString(kv.Value))
+			} else {
+				out = append(out, types.ExprString(e))
+			}
+		}
+		return false
+	})
+	if !found {
+		return []string{"<literal not found>"}
+	}
+	return out
+}
+
+// stringLits lists all string literals of a function in source order.
+func (p *pkg) stringLits(fd *ast.FuncDecl) []string {
+	if fd == nil {
+		return []string{"<function not found>"}
+	}
+	var out []string
+	ast.Inspect(fd.Body, func(n ast.Node) bool {
+		if bl, ok := n.(*ast.BasicLit); ok && bl.Kind == token.STRING {
+			if s, err := strconv.Unquote(bl.Value); err == nil {
+				out = append(out, s)
+			}
+		}
+		return true
+	})
+	return out
+}
+
+// typeSwitchCases lists the case clauses ("case *llo.Decimal" …) of the type switches of a function.
+func (p *pkg) typeSwitchCases(fd *ast.FuncDecl) []string {
+	if fd == nil {
+		return []string{"<function not found>"}
+	}
+	var out []string
+	ast.Inspect(fd.Body, func(n ast.Node) bool {
+		ts, ok := n.(*ast.TypeSwitchStmt)
+		if !ok {
+			return true
+		}
+		for _, c := range ts.Body.List {
+			cc := c.(*ast.CaseClause)
+			if cc.List == nil {
+				out = append(out, "default")
+				continue
+			}
+			var ts []string
+			for _, e := range cc.List {
+				ts = append(ts, types.ExprString(e))
+			}
+			out = append(out, "case "+strings.Join(ts, ", "))
+		}
+		return true
+	})
+	return out
+}
+
+func (p *pkg) valueSpecExpr(tok token.Token, name string) string {
+	for _, f := range p.files {
+		for _, d := range f.Decls {
+			gd, ok := d.(*ast.GenDecl)
+			if !ok || gd.Tok != tok {
+				continue
+			}
+			for _, sp := range gd.Specs {
+				vs := sp.(*ast.ValueSpec)
+				for i, id := range vs.Names {
+					if id.Name == name && i < len(vs.Values) {
+						return types.ExprString(vs.Values[i])
+					}
+				}
+			}
+		}
+	}
+	return "<not found>"
+}
+
+// constLit is the source text of a package constant's value; varInit of a package variable's initialiser.
+func (p *pkg) constLit(name string) string { return p.valueSpecExpr(token.CONST, name) }
+func (p *pkg) varInit(name string) string  { return p.valueSpecExpr(token.VAR, name) }
